@@ -63,7 +63,7 @@ enum Cmd {
     SendS(Sb, u64),
 }
 #[derive(Clone, Debug)]
-enum Action { Effects, Events, IsDone, Resolve(u64, u64, u64, u64), DropReq(u64, u64, u64), Abort(u64), Event(u64, u64) }
+enum Action { Effects, Events, IsDone, Resolve(u64, u64, u64, u64), DropReq(u64, u64, u64), Abort(u64), Event(u64, u64), Spawn(Task) }
 
 impl Expr {
     fn coq(&self) -> String { match self { Expr::K(n) => format!("(K {})", n), Expr::V(x) => format!("(V {})", x), Expr::Plus(a, b) => format!("(Plus {} {})", a.coq(), b.coq()) } }
@@ -161,9 +161,10 @@ impl Action {
             Action::Resolve(t, v, o, out) => format!("(AResolve {} {} {} {})", t, v, o, out),
             Action::DropReq(t, v, o) => format!("(ADropReq {} {} {})", t, v, o),
             Action::Abort(n) => format!("(AAbort {})", n), Action::Event(t, v) => format!("(AEvent {} {})", t, v),
+            Action::Spawn(t) => format!("(ASpawn {})", t.coq()),
         }
     }
-    fn name(&self) -> &'static str { match self { Action::Effects => "AEffects", Action::Events => "AEvents", Action::IsDone => "AIsDone", Action::Resolve(..) => "AResolve", Action::DropReq(..) => "ADropReq", Action::Abort(_) => "AAbort", Action::Event(..) => "AEvent" } }
+    fn name(&self) -> &'static str { match self { Action::Effects => "AEffects", Action::Events => "AEvents", Action::IsDone => "AIsDone", Action::Resolve(..) => "AResolve", Action::DropReq(..) => "ADropReq", Action::Abort(_) => "AAbort", Action::Event(..) => "AEvent", Action::Spawn(_) => "ASpawn" } }
 }
 
 // ---------------------------------------------------------------- effect / event types
@@ -442,8 +443,18 @@ fn run_direct(c: &Cmd, rng: &mut Rng, names: &[u64], nsteps: usize, fixed: Optio
                 else if i < 3 && skip_initial { if i == 0 { Action::Abort(*rng.pick(names)) } else { pick_action(rng, &held, names, false, &[]) } }
                 else if i < 3 { [Action::Effects, Action::Events, Action::IsDone][i].clone() }
                 else if i >= total - 3 { [Action::Effects, Action::Events, Action::IsDone][i - (total - 3)].clone() }
+                else if rng.coin(1, 20) {
+                    // a task spawned onto the running (or finished, or aborted) command from outside
+                    let tg = 900 + i as u64;
+                    Action::Spawn(match rng.below(4) {
+                        0 => Task::Emit(100 + rng.below(6), Expr::K(rng.below(4)), Box::new(Task::Ret)),
+                        1 => Task::Req(tg, Expr::K(rng.below(3)), 0, Box::new(Task::Emit(100 + rng.below(6), Expr::V(0), Box::new(Task::Ret)))),
+                        2 => Task::Notify(tg, Expr::K(1), Box::new(Task::Yield(1, Box::new(Task::Ret)))),
+                        _ => Task::ForEach(tg, Expr::K(0), 0, Box::new(Task::Emit(100 + rng.below(6), Expr::V(0), Box::new(Task::Ret))), Box::new(Task::Ret)),
+                    })
+                }
                 else { pick_action(rng, &held, names, false, &[]) };
-        if fixed.is_none() && i >= 3 && i < total - 3 && held.is_empty() && names.is_empty() && i % 3 != 0 { continue; }
+        if fixed.is_none() && i >= 3 && i < total - 3 && held.is_empty() && names.is_empty() && i % 3 != 0 && !matches!(a, Action::Spawn(_)) { continue; }
         let o = match &a {
             Action::Effects => { let es: Vec<Eff> = cmd.effects().collect(); format!("OEffects {}", oeffs(es, &mut held)) }
             Action::Events => { let es: Vec<Ev> = cmd.events().collect(); format!("OEvents {}", oevs(&es)) }
@@ -455,6 +466,8 @@ fn run_direct(c: &Cmd, rng: &mut Rng, names: &[u64], nsteps: usize, fixed: Optio
             Action::DropReq(t, v, o) => { if let Some(i) = find(&held, *t, *v, *o) { held[i].req = None; } "ONone".into() }
             Action::Abort(n) => { for (m, h) in aborts.lock().unwrap().iter() { if m == n { h(); } } "ONone".into() }
             Action::Event(..) => "ONone".into(),
+            Action::Spawn(t) => { let (t, ab) = (t.clone(), aborts.clone());
+                cmd.spawn(move |ctx| async move { let mut e = Env::default(); exec(&t, &mut e, &ctx, &ab).await }); "ONone".into() }
         };
         acts.push(a); obs.push(o);
     }
